@@ -126,7 +126,12 @@ def centres(mc):
 def build(df, emb, mc, dims, bc, nv, vdims, mapping, arr, valid=None, unit=None, rename=False):
     first = vdims
     if rename and vdims is not None:
-        first = [f"t{c}" for c in range(nv)]
+        if nv > 1 and (sum(mc["n"]) + len(bc)) % 2 == 1:
+            # provisional labels that are a PERMUTATION of the final ones: every new label is already a key of the old mapping
+            # (seeded change C05-31 let such a label keep its old axis)
+            first = [vdims[(c + 1) % nv] for c in range(nv)]
+        else:
+            first = [f"t{c}" for c in range(nv)]
         if mapping:
             mapping = {first[vdims.index(k)]: v for k, v in mapping.items()}
     if mapping and len(mapping) > 1 and (sum(mc["n"]) + nv) % 2 == 0:
